@@ -5,18 +5,18 @@ CONSTANTS
   FAdd <- AddM
   FMul <- MulM
   FLess <- LessM
-  FW = 1
-  WithExt = FALSE
-  ExtConsts = {}
-  NW = 10
-  NR = 9
+  FW = 2
+  WithExt = TRUE
+  ExtConsts <- ExtConstsSmall
+  NW = 16
+  NR = 13
   NC = 2
-  Mutant = "none"
+  Mutant = "ext_identity_wrong_operand"
   Sem = TRUE
-  InputVals = {0, 1, 2}
-  P = 3
-  MaxCalls = 4
-  Consts = {0, 1, 2}
+  InputVals = {2}
+  P = 5
+  MaxCalls = 3
+  Consts = {0, 1, 3}
   MaxBits = 2
   MaxPi = 0
 INVARIANT Inv
